@@ -5,13 +5,14 @@ import re
 
 from . import templates as T
 
-STYLES = ["sa_select", "sa_select_aliased", "sa_legacy", "sa_core", "sa_core_cols", "dj_qs",
+STYLES = ["sa_select", "sa_select_aliased", "sa_legacy", "sa_core", "sa_core_cols",
+          "sa_core_fromjoin", "dj_qs",
           "dj_manager",
           "dj_custom_manager", "dj_related_manager"]
 # related managers the host may start from: root model -> (owner model, accessor, fk column)
 RELATED = {"Post": ("Author", "posts", "author_id"),
            "Comment": ("Post", "comments", "post_id")}
-CORE_STYLES = ("sa_core", "sa_core_cols")
+CORE_STYLES = ("sa_core", "sa_core_cols", "sa_core_fromjoin")
 HOST_OPS = {"eq": "__eq__", "ne": "__ne__", "lt": "__lt__", "le": "__le__", "gt": "__gt__",
             "ge": "__ge__"}
 DJ_LOOKUP = {"eq": "exact", "lt": "lt", "le": "lte", "gt": "gt", "ge": "gte"}
@@ -109,7 +110,7 @@ class Libs:
 class HostQuery:
     """Model-side record of one live query object."""
     __slots__ = ("qid", "style", "root", "obj", "preds", "order", "joins", "annotated",
-                 "chain", "snap0", "depth", "parent", "have")
+                 "chain", "snap0", "depth", "parent", "have", "limit")
 
     def __init__(self, qid, style, root, obj, preds, order, joins, annotated, chain, depth,
                  parent):
@@ -118,6 +119,7 @@ class HostQuery:
         self.chain, self.depth, self.parent = chain, depth, parent
         self.snap0 = None
         self.have = set()    # (owner model, rel) the query already joins (host or shorthand)
+        self.limit = None    # (n, offset) once the host sliced the query
 
 
 def is_dj(style):
@@ -147,6 +149,13 @@ class Builder:
             t = L.sm.TABLES[root]
             second = sorted(c for c in T.SCALARS[root] if c != "id")[-1]
             return L.select(t.c.id, t.c[second])
+        if style == "sa_core_fromjoin":
+            # columns of author (first) and post, FROM post JOIN author: the order of the
+            # FROM list differs from the order of the columns.  Root is Author; one row
+            # per post that has an author.
+            a, p = L.sm.TABLES["Author"], L.sm.TABLES["Post"]
+            return L.select(a.c.id, a.c.name, p.c.title).select_from(p).join(
+                a, p.c.author_id == a.c.id)
         if style == "dj_qs":
             return L.dm.MODELS[root].objects.all()
         if style == "dj_manager":
@@ -234,6 +243,11 @@ class Builder:
             return self.order(style, root, obj, op["o"])
         if k == "annotate":
             return self.annotate(style, root, obj)
+        if k == "limit":
+            n, m = op["n"], op.get("offset", 0)
+            if is_dj(style):
+                return obj.all()[m:m + n]
+            return obj.limit(n).offset(m)
         if k == "distinct":
             return obj.distinct()
         if k == "only":
@@ -320,23 +334,45 @@ def count_joins(sql, table):
 
 
 # -------------------------------------------------------------------- reference model
-def model_rows(q, db):
-    """Rows (dicts) the host query denotes on the reference database, in order."""
-    rows = list(db[q.root])
+def model_rows(q, db, filter_then_limit=False):
+    """Rows (dicts) the host query denotes on the reference database, in order.
+    Conditions added after the host sliced the query (LIMIT/OFFSET) select among the
+    sliced rows; ``filter_then_limit`` gives SQL's reading instead (all conditions, then
+    the slice) - used only to recognise the known finding."""
+    if q.style == "sa_core_fromjoin":
+        # one row per post that has an author; the row carries the author's columns
+        rows = []
+        for p in db["Post"]:
+            for a in db["Author"]:
+                if p["author_id"] == a["id"]:
+                    rows.append(dict(a))
+    else:
+        rows = list(db[q.root])
     for j in q.joins:
         if j["form"] in ("outer_rel", "select_related", "joinedload"):
             continue
         rows = [r for r in rows if _join_keeps(q.root, r, j, db)]
-    for p in q.preds:
-        if p["kind"] == "host":
-            c = p["cond"]
-            rows = [r for r in rows if T.OPS[c["op"]](r[c["f"]], c["v"])]
-        else:
-            rows = [r for r in rows if T.evaluate(p["t"], r, db, q.root)]
+    def keep(rows, preds):
+        for p in preds:
+            if p["kind"] == "host":
+                c = p["cond"]
+                rows = [r for r in rows if T.OPS[c["op"]](r[c["f"]], c["v"])]
+            else:
+                rows = [r for r in rows if T.evaluate(p["t"], r, db, q.root)]
+        return rows
+
+    late = [p for p in q.preds if p.get("after_limit")]
+    rows = keep(rows, [p for p in q.preds if not p.get("after_limit")] +
+                (late if filter_then_limit else []))
     if q.order:
         f, d = q.order["f"], q.order["dir"]
         rows.sort(key=lambda r: r["id"])
         rows.sort(key=lambda r: r[f], reverse=(d == "desc"))
+    if q.limit:
+        n, m = q.limit
+        rows = rows[m:m + n]
+    if not filter_then_limit:
+        rows = keep(rows, late)
     return rows
 
 
